@@ -579,11 +579,23 @@ func (a *Analysis) HandlerCheck() (out []Finding, checked int, conns map[int]boo
 			}
 		}
 	}
-	handlerAt := func(seq int) (int, bool) {
+	// serve looks the handler up some time after the last byte was consumed and before it comes
+	// back to read: the handler must be stable over that whole interval, i.e. from the consumed
+	// event to the next thing the reader goroutine does on that connection.
+	nextOnConn := func(seq, conn int) int {
+		for _, e := range a.Ev {
+			if e.Seq > seq && e.Conn == conn && (e.Kind == memnet.KConsumed || (e.Kind == memnet.KWrite && e.Pkt != nil && (e.Pkt.Type == mqttref.PUBACK || e.Pkt.Type == mqttref.PUBCOMP || e.Pkt.Type == mqttref.PUBREC))) {
+				return e.Seq
+			}
+		}
+		return 1 << 30
+	}
+	handlerAtConn := func(seq, conn int) (int, bool) {
+		end := nextOnConn(seq, conn)
 		h := 0
 		for _, s := range spans {
-			if s.call <= seq && seq <= s.ret {
-				return 0, false // a Handle call is in flight
+			if s.call <= end && seq <= s.ret {
+				return 0, false // a Handle call overlaps the interval
 			}
 			if s.ret < seq {
 				h = s.h
@@ -621,7 +633,7 @@ func (a *Analysis) HandlerCheck() (out []Finding, checked int, conns map[int]boo
 		if s.Pkt.Type == mqttref.PUBREL {
 			relConsumed[fmt.Sprintf("%d/%d", e.Conn, s.Pkt.ID)] = e.Seq
 			if m, ok := q2[fmt.Sprintf("%d/%d", e.Conn, s.Pkt.ID)]; ok && e.Seq < lastConsumed[e.Conn] {
-				h, stable := handlerAt(e.Seq)
+				h, stable := handlerAtConn(e.Seq, e.Conn)
 				if !stable {
 					continue
 				}
@@ -642,7 +654,7 @@ func (a *Analysis) HandlerCheck() (out []Finding, checked int, conns map[int]boo
 		if e.Seq >= lastConsumed[e.Conn] {
 			continue // the last thing consumed on this connection: the handler may still be running
 		}
-		h, stable := handlerAt(e.Seq)
+		h, stable := handlerAtConn(e.Seq, e.Conn)
 		if !stable {
 			continue
 		}
